@@ -59,12 +59,22 @@ def file_pool(rng):
     pool['d-empty.mos.xml'] = ''
     pool['e-directory.mos.xml'] = '<dir>'
     pool['f-missing.mos.xml'] = None
+    # names with characters that a shell, glob, expanduser / expandvars or a URL parser would treat specially; the
+    # directory also holds bystanders (BYSTANDERS) that such a pattern would match
+    pool['g[1].mos.xml'] = to_text(story_append(70, [gens.new_story('G1')]))
+    pool['h?.mos.xml'] = to_text(ro_delete(71))
+    pool['i*.mos.xml'] = to_text(ready_to_air(72))
+    pool['~j $HOME %41+.mos.xml'] = to_text(story_move(73, ['A', 'B']))
     # structural neighbours of the documents above (gens.mutate_doc): what detect / inspect print for them
     base = [(k_, v) for k_, v in pool.items() if isinstance(v, str) and v.startswith('<mos')]
     for j in range(40):
         k_, v = rng.choice(base)
         pool['m%02d-%s' % (j, k_[3:])] = gens.mutate_doc(rng, v, None, n=rng.randrange(1, 4))
     return pool
+
+
+BYSTANDERS = {'g1.mos.xml': '<mos><mosID>M</mosID><ncsID>N</ncsID><messageID>99</messageID><roStoryDelete><roID>BYSTANDER</roID><storyID>A</storyID></roStoryDelete></mos>',
+              'ha.mos.xml': 'bystander, not xml', 'iZZ.mos.xml': '<mos><heartbeat/></mos>', 'ro1.mos.xml': 'bystander', 'appX.mos.xml': 'bystander', 'delA.mos.xml': 'bystander'}
 
 
 def model_detect(inspect, names, pool, at='@'):
@@ -127,7 +137,10 @@ class Check:
             if r % 5 == 0:
                 sel[rng.randrange(len(sel))] = rng.choice(['e-directory.mos.xml', 'f-missing.mos.xml', 'a-garbage.mos.xml', '81-swap3.mos.xml'])
             cmd = 'inspect' if r % 2 else 'detect'
-            runs.append({'cmd': cmd, 'names': sel, 'files': {n_: pool[n_] for n_ in set(sel)}, 'argv': [cmd, '-f'] + ['@' + n_ for n_ in sel]})
+            if r % 6 == 1:
+                sel[rng.randrange(len(sel))] = rng.choice(['g[1].mos.xml', 'h?.mos.xml', 'i*.mos.xml', '~j $HOME %41+.mos.xml'])
+            runs.append({'cmd': cmd, 'names': sel, 'files': {n_: pool[n_] for n_ in set(sel)}, 'bystanders': BYSTANDERS,
+                         'argv': [cmd, '-f'] + ['@' + n_ for n_ in sel]})
         return runs
 
     def s3_detect_runs(self, tier, rng, pool):
@@ -213,6 +226,7 @@ class Check:
                 'no-create': {'5.mos.xml': app, '9.mos.xml': rd},
                 'garbage': {'1.mos.xml': ro, '7.mos.xml': 'not xml', '9.mos.xml': rd},
                 'missing': {'1.mos.xml': ro, '8.mos.xml': None, '9.mos.xml': rd},
+                'odd-names': {'ro[1].mos.xml': ro, 'app*.mos.xml': app, 'del?.mos.xml': rd},
                 'equal-ids': {'1.mos.xml': ro, 'z-first.mos.xml': to_text(story_append(5, [gens.new_story('ZF')])),
                               'a-second.mos.xml': to_text(story_append(5, [gens.new_story('AS')])), '9.mos.xml': rd}}
         runs = []
@@ -230,7 +244,7 @@ class Check:
                         if outf:
                             argv += ['-o', '@' + outf]
                         runs.append({'cmd': 'merge', 'set': name, 'inc': inc, 'ns': ns, 'files': files, 'argv': argv, 'outfile': outf,
-                                     'order': sorted(files, reverse=True)})
+                                     'order': sorted(files, reverse=True), 'bystanders': BYSTANDERS})
         # the same collections kept in a bucket: merge -b bucket -p ro/ [-s .mos.xml]
         for name in ('valid', 'incomplete', 'failing', 'mixed-ids', 'no-create', 'equal-ids'):
             files = sets[name]
@@ -289,7 +303,7 @@ class Check:
         pool = file_pool(rng)
         druns = self.detect_runs(tier, rng, pool) + self.s3_detect_runs(tier, rng, pool)
         mruns = self.merge_runs(tier, rng)
-        res = run_cli([{'files': r['files'], 'argv': r['argv'], 'outfile': r.get('outfile'), 's3': r.get('s3')} for r in druns + mruns])
+        res = run_cli([{'files': r['files'], 'argv': r['argv'], 'outfile': r.get('outfile'), 's3': r.get('s3'), 'bystanders': r.get('bystanders', {})} for r in druns + mruns])
         vio, dis, sigs, samples = [], [], set(), []
         for r, o in zip(druns, res[:len(druns)]):
             what = self.judge_detect(r, o, pool)
@@ -303,7 +317,7 @@ class Check:
             i_err = [err_kind(l) for l in o['stderr'].split('\n') if l]
             sigs.add((r['cmd'], 's3' if r.get('s3') is not None else 'files', tuple(sorted({n_.split('/')[-1].split('-')[0] for n_ in r['names']})), o['status']))
             if what:
-                vio.append({'what': what, 'case': {'kind': 'cli', 'argv': r['argv'], 'files': r['files'], 's3': r.get('s3'), 'names': r['names'], 'cmd': r['cmd']}, 'impl': [o['status'], o['stdout'][:400], o['stderr'][:400]], 'expected': [m_out[:400], m_err]})
+                vio.append({'what': what, 'case': {'kind': 'cli', 'argv': r['argv'], 'files': r['files'], 's3': r.get('s3'), 'names': r['names'], 'cmd': r['cmd'], 'bystanders': r.get('bystanders', {})}, 'impl': [o['status'], o['stdout'][:400], o['stderr'][:400]], 'expected': [m_out[:400], m_err]})
             if (i_out, i_err, o['status']) != (m_out, m_err, None if status == 0 else status):
                 dis.append({'case': {'kind': 'cli', 'argv': r['argv'], 'files': r['files']}, 'impl': [o['status'], i_out[:600], i_err], 'model': [status, m_out[:600], m_err], 'explained': bool(what)})
             if len(samples) < 2 and len(r['names']) > 2:
@@ -332,7 +346,7 @@ class Check:
             i_status = 0 if o['status'] is None else o['status']
             i_doc = (o['outfile'] if r['outfile'] else o['stdout'].rstrip('\n')) if i_status == 0 else None
             if what:
-                vio.append({'what': what, 'case': {'kind': 'cli', 'argv': r['argv'], 'files': r['files'], 's3': r.get('s3'), 'outfile': r.get('outfile')}, 'impl': [o['status'], o['stderr'][:300]], 'expected': [m_status]})
+                vio.append({'what': what, 'case': {'kind': 'cli', 'argv': r['argv'], 'files': r['files'], 's3': r.get('s3'), 'outfile': r.get('outfile'), 'bystanders': r.get('bystanders', {})}, 'impl': [o['status'], o['stderr'][:300]], 'expected': [m_status]})
             if (i_status, i_doc) != (m_status, m_doc):
                 dis.append({'case': {'kind': 'cli', 'argv': r['argv'], 'files': r['files']}, 'impl': [i_status, (i_doc or '')[:300]], 'model': [m_status, (m_doc or '')[:300]], 'explained': bool(what)})
         return {'evaluations': len(res), 'distinct': len(sigs), 'rule': self.rule, 'samples': samples,
@@ -342,7 +356,7 @@ class Check:
         case = rep.get('case') or {}
         if 'argv' not in case:
             return {'violation': False, 'note': str(rep.get('detail'))}
-        o = run_cli([{'files': case['files'], 'argv': case['argv'], 'outfile': case.get('outfile'), 's3': case.get('s3')}])[0]
+        o = run_cli([{'files': case['files'], 'argv': case['argv'], 'outfile': case.get('outfile'), 's3': case.get('s3'), 'bystanders': case.get('bystanders', {})}])[0]
         if case['argv'][0] == 'merge':
             order = [a[1:] for a in case['argv'] if a.startswith('@') and a[1:] in case['files']]
             if case.get('s3') is not None:
